@@ -235,6 +235,29 @@ func surfaceContainer(r *Run, rng *Rng, n int) {
 			r.Fail("setter-error-class", fmt.Sprintf("decoded container: error class %d / %d, want %d", errMask(verr), errMask(valErr), stMask[st]))
 		}
 	}
+	// a nil entry (an untyped nil interface, a typed nil pointer) is refused, with an error, and nothing changes
+	for _, nilv := range []psa.ISwComponent{nil, (*psa.SwComponent)(nil)} {
+		cont := &psa.SwComponents[*psa.SwComponent]{}
+		good := validComp(rng).Build()
+		_ = cont.Add(good)
+		for _, kind := range []string{"add", "replace"} {
+			var err error
+			pan, what := safely(func() {
+				if kind == "add" {
+					err = cont.Add(good, nilv)
+				} else {
+					err = cont.Replace([]psa.ISwComponent{nilv, good})
+				}
+			})
+			r.ImplOnly("surface/container-nil-entry", false, fmt.Sprintf("container-nil-entry %s typed=%v", kind, nilv != nil))
+			vals, _ := cont.Values()
+			if pan || err == nil || len(vals) != 1 {
+				r.Fail("fail-unchanged", fmt.Sprintf("container %s with a nil entry: panic=%v (%v) err=%v, %d components held afterwards (1 expected)", kind, pan, what, err, len(vals)))
+			} else if errMask(err) != 16 {
+				r.Fail("setter-error-class", fmt.Sprintf("container %s with a nil entry: error class %d, want wrong-syntax", kind, errMask(err)))
+			}
+		}
+	}
 	// a component of another type is not this container's: refused, nothing changes
 	{
 		cont := &psa.SwComponents[*psa.SwComponent]{}
